@@ -75,10 +75,15 @@ namespace nmtools::index
             // not valid
         }
         else {
+            // a negative axis counts from the end
+            auto normalized_axis = static_cast<nm_index_t>(axis);
+            if (normalized_axis < 0) {
+                normalized_axis += static_cast<nm_index_t>(ad);
+            }
             // TODO: do not use tuple_at
-            auto aa = tuple_at(ashape,axis);
-            auto ba = tuple_at(bshape,axis);
-            auto ia = tuple_at(indices,axis);
+            auto aa = tuple_at(ashape,normalized_axis);
+            auto ba = tuple_at(bshape,normalized_axis);
+            auto ia = tuple_at(indices,normalized_axis);
             // todo error handling for other axis
             if (ia<aa) {
                 aflag = true;
@@ -88,12 +93,11 @@ namespace nmtools::index
             }
             // also take account for offset
             else if (ia<(ba+aa)) {
-                using idx_t = meta::promote_index_t<size_t,axis_t>;
                 bflag = true;
                 // select ashape, must apply offset from ashape
                 for (size_t i=0; i<bd; i++) {
                     // TODO: do not use tuple_at
-                    if (static_cast<idx_t>(i)==static_cast<idx_t>(axis))
+                    if (static_cast<nm_index_t>(i)==normalized_axis)
                         at(b_indices,i) = tuple_at(indices,i) - aa;
                     else at(b_indices,i) = tuple_at(indices,i);
                 }
@@ -191,11 +195,15 @@ namespace nmtools::index
                 at(ret,0_ct) = na + nb;
             }
             else if (ad==bd) {
-                using idx_t = meta::promote_index_t<size_t,axis_t>;
+                // a negative axis counts from the end
+                auto normalized_axis = static_cast<nm_index_t>(axis);
+                if (normalized_axis < 0) {
+                    normalized_axis += static_cast<nm_index_t>(ad);
+                }
                 auto shape_concatenate_impl = [&](auto i){
                     auto ai = at(ashape,i);
                     auto bi = at(bshape,i);
-                    if (static_cast<idx_t>(i)==static_cast<idx_t>(axis)) {
+                    if (static_cast<nm_index_t>(i)==normalized_axis) {
                         at(ret,i) = ai + bi;
                     }
                     // TODO: consider to provide platform dependent index_t
